@@ -6,7 +6,7 @@ import reccommon as R
 from engine import Op, set_mode
 
 PROP = "C13"
-LEAN_MODULES = ["IsoDT.Props.C13", "IsoDT.Props.C13b", "IsoDT.Props.C13c", "IsoDT.Props.C13mm", "IsoDT.Props.C13q"]
+LEAN_MODULES = ["IsoDT.Props.C13", "IsoDT.Props.C13b", "IsoDT.Props.C13c", "IsoDT.Props.C13mm", "IsoDT.Props.C13q", "IsoDT.Props.C13r"]
 RULE = ("recurrences as in C12 x probe points before, on, between and after members, members re-expressed in "
         "another zone/representation, the last member, one second either side; non-trivial when the probe is "
         "within the span of the series; distinct by (op, arguments)")
@@ -469,4 +469,4 @@ def ops():
     import recqops
     return [IsValid(), GetItem(), Next(), Prev(), FirstAfter(), QuerySeq(), QueryFrac(),
             recmm.RecMMOp(PROP, "mmquery", ["mmritem", "mmrvalid", "mmrvalid", "mmrnext", "mmrprev", "mmrfirst", "mmrfirst"], 700),
-            recqops.RecQOp(PROP, "rqueryq", ["rvalidq", "rvalidq", "ritemq"], 400)]
+            recqops.RecQOp(PROP, "rqueryq", ["rvalidq", "rvalidq", "ritemq", "rfirstq", "rfirstq"], 500)]
